@@ -279,6 +279,29 @@ def r01_4(prog, rep):
             rep.ok(rid, key, "src/" + file, "%s obtains occurrences through echs_evstrm_next/pop only (%s)" % (file, ", ".join(sorted(users))))
 
 
+def r01_13(prog, rep, rid="R01.13"):
+    """BYWEEKNO counts ISO weeks, and a negative week number counts from the year's last one: get_isowk() says whether a year has 52 or 53.
+    It is walked for every year 1901..2099 and compared with the calendar (the week of December 28 is always the last)."""
+    import datetime
+    from .c08 import _walk_fn
+    f = prog.fn("get_isowk", "evrrul.c")
+    bad = []
+    for y in range(1901, 2100):
+        got = _walk_fn(prog, f, [y])
+        if got is None:
+            raise AnalysisBroken("get_isowk(%d) could not be followed to one result" % y)
+        want = datetime.date(y, 12, 28).isocalendar()[1]
+        if got != want:
+            bad.append((y, got, want))
+    key = "get_isowk/weeks-of-the-year"
+    if bad:
+        rep.fail(rid, key, f.loc(), "%d of 199 years get the wrong number of ISO weeks, e.g. %s: BYWEEKNO=-1 (and every negative week number) selects the "
+                 "wrong week there, BYWEEKNO=53 a week that does not exist" % (len(bad), "; ".join("%d: %s instead of %d" % b_ for b_ in bad[:4])),
+                 {"years": [list(b_) for b_ in bad]})
+    else:
+        rep.ok(rid, key, f.loc(), "all 199 years 1901..2099 have the calendar's number of ISO weeks")
+
+
 def run(prog, rep, tier, snap):
     rep.rule("R01.1", "applicability matrix: every applicable rule part influences every filler's output", 80)
     rep.call(r01_1, prog, rep, tier)
@@ -302,6 +325,8 @@ def run(prog, rep, tier, snap):
     rep.call(fillers.r01_11, prog, rep)
     rep.rule("R01.12", "a month taken from yd_to_md() is packed into a candidate set only when it is at most 12", 3)
     rep.call(fillers.r01_12, prog, rep)
+    rep.rule("R01.13", "the number of ISO weeks of every year 1901..2099 (value-fixed walk)", 1)
+    rep.call(r01_13, prog, rep)
     rep.rule("R01.8", "a mask duplicated for wrap-around is clamped to the width it was duplicated by", 1)
     rep.call(fillers.r01_8, prog, rep)
     rep.rule("R01.7", "range tests against 0 are not evaluated in unsigned arithmetic when an operand is signed", 2)
@@ -313,4 +338,10 @@ def run(prog, rep, tier, snap):
     rep.call(c16.r16_2, prog, rep)
     rep.rule("R16.3", "COUNT accounting (shared with C16)", 9)
     rep.call(c16.r16_3, prog, rep)
+    from . import c07
+    rep.rule("R07.12", "the seed of the next batch is kept on the wall clock, before the batch is converted and sorted (shared with C07)", 3)
+    rep.call(c07.r07_12, prog, rep)
+    from ..rules import state
+    rep.rule("R16.6", "the fillers and their helpers carry no state from one rule to the next (shared with C16)", 1)
+    rep.call(state.no_carried_state, prog, rep, "R16.6", "rrule")
 READY = True
